@@ -60,6 +60,8 @@ def run(ctx):
         out = ctx.path("hostile_%s.json" % maxv)
         # frequent heartbeats heal (and hide) a stalled backend connection within their interval: the v5 run uses slow ones
         hb = ["-heartbeat", "6s", "-idle", "30s"] if maxv == "v5" else []
+        if maxv == "v4":
+            hb += ["-debug"]        # one run with the development logger (--debug is a documented option like any other)
         ctx.drv(["hostile", "-bin", binp, "-in", path if (maxv == "v4" or not t) else spath, "-out", out, "-maxversion", maxv, "-reps", "2"] + hb,
                 timeout=6000)
         r = json.load(open(out))
